@@ -46,10 +46,11 @@ def split_facts(s, sep):
 class SplitVal:
     """Lazy result of s.split(sep) with optional [:-1] / [1:] trimming."""
 
-    def __init__(self, s, sep, drop_last=False):
+    def __init__(self, s, sep, drop_last=False, drop_first=False):
         self.s = s
         self.sep = sep
         self.drop_last = drop_last
+        self.drop_first = drop_first
 
     def facts(self, st, ex):
         key = ("split", self.s.get_id(), self.sep.get_id())
@@ -74,8 +75,10 @@ class SplitVal:
         raise Unsupported("split()[%d]" % i, node)
 
     def slice(self, lo, hi, node):
-        if lo is None and hi is not None and z3.simplify(hi.t).eq(z3.IntVal(-1)) and not self.drop_last:
+        if lo is None and hi is not None and z3.simplify(hi.t).eq(z3.IntVal(-1)) and not self.drop_last and not self.drop_first:
             return SplitVal(self.s, self.sep, drop_last=True)
+        if hi is None and lo is not None and z3.simplify(lo.t).eq(z3.IntVal(1)) and not self.drop_last and not self.drop_first:
+            return SplitVal(self.s, self.sep, drop_first=True)
         raise Unsupported("slice of split()", node)
 
     def contains(self, x, st, ex):
@@ -98,6 +101,8 @@ class SplitVal:
             raise Unsupported("join with a different separator", node)
         if self.drop_last:
             return mk_str(init_seg(self.s, self.sep))
+        if self.drop_first:
+            return mk_str(rest_seg(self.s, self.sep))
         return mk_str(self.s)
 
 
